@@ -452,6 +452,8 @@ def pack_into_passes(nng, arch, verbose_packing=False):
                 next_op.activation is not None
                 or next_op.type in activation_ops
                 or next_op.type in (Op.Abs, Op.LeakyRelu)
+                # a 16-bit TANH / SIGMOID is itself executed as the activation function of its pass
+                or next_op.type in (Op.Tanh, Op.Sigmoid)
                 # a memory copy (DMA) cannot apply an activation at all
                 or next_op.type == Op.Memcpy
                 # a transpose is recognised by the producer of its OFM tensor when the OFM strides are swapped
